@@ -134,7 +134,9 @@ CLAIMED = {
          "fresh instance of exactly the called class, __init__ once; check creates nothing). Lemmas over the contracts: every live mapping "
          "holds an instance of the class in its key (W17), entries keyed by another class are untouched by every operation, the default key "
          "(args, sorted-kwargs json) is equal iff its components are (json injectivity modulo keyword order is assumption A9). "
-         "get_all_semi_singleton_instances / clear_semi_singleton: TRUSTED contracts (dict iteration with tuple keys) + bounded stand-in."),
+         "get_all_semi_singleton_instances (generator: yields exactly the instances under the live keys of the class, over a ghost enumeration "
+         "of the registry) and clear_semi_singleton (removes exactly that class's mappings; loop invariant over the collected keys) are verified "
+         "as well - no trusted contract is left for this property."),
  "C18": ("proof", "6/C18", "tmap: class -> instance. TrueSingleton.__call__ and clear_true_singleton are verified against the map contracts (present: that "
          "instance, nothing changes, __init__ not run; absent: type.__call__ allocates an instance of exactly cls, __init__ once with the call's "
          "arguments (ghost init_count / init_args), map extended at cls only; a raising __init__ registers nothing; targeted clear removes one "
